@@ -168,15 +168,19 @@ const KATA: &[char] = &['ア', 'イ', 'ウ', 'ー', 'ァ', 'カ'];
 
 #[derive(Clone, Debug, PartialEq)]
 pub enum Plug {
-    Numeric { normalize: bool },
+    /// `implicit`: the key `enableNormalize` is left out of the settings (`set_up`: `unwrap_or(true)`); only with `normalize == true`
+    Numeric { normalize: bool, implicit: bool },
     Katakana { min_length: usize, pos: usize },
 }
 
 impl Plug {
     fn json(&self) -> String {
         match self {
-            Plug::Numeric { normalize } => format!(
-                r#"{{"class":"com.worksap.nlp.sudachi.JoinNumericPlugin","enableNormalize":{}}}"#, normalize),
+            Plug::Numeric { normalize, implicit } => if *implicit && *normalize {
+                r#"{"class":"com.worksap.nlp.sudachi.JoinNumericPlugin"}"#.to_string()
+            } else {
+                format!(r#"{{"class":"com.worksap.nlp.sudachi.JoinNumericPlugin","enableNormalize":{}}}"#, normalize)
+            },
             Plug::Katakana { min_length, pos } => {
                 let p = &POS[*pos];
                 format!(
@@ -194,6 +198,10 @@ pub struct World {
     oov_plugins: Vec<String>,
     pub rows: Vec<Row>,
     pub chardef_extra: String,
+    /// 0, 1 or 2 user dictionaries (dictionary ids 1 and 2): `concat_oov_nodes` takes the dictionary id of the joined token
+    /// from the largest word id of the block
+    users: Vec<Vec<u8>>,
+    pub user_words: Vec<String>,
 }
 
 fn numeral_row(s: &str, n_ids: usize, rng: &mut Rng, pos: usize) -> Row {
@@ -213,6 +221,9 @@ fn directed_rows(directed: Option<usize>) -> Vec<(&'static str, &'static str, us
         // no class oddities
         Some(4) => vec![("1", "1", NUMERAL), ("2", "2", NUMERAL), ("3", "3", NUMERAL), ("4", "4", NUMERAL), ("5", "5", NUMERAL),
                         (",", ",", SYMBOL), (".", ".", SYMBOL)],
+        // the numeral gate: every digit a numeral, `24` a cheap proper noun (not a numeral), `、`/`。` normalise to the separators
+        Some(5) => vec![("0", "0", NUMERAL), ("2", "2", NUMERAL), ("4", "4", NUMERAL), ("5", "5", NUMERAL), ("7", "7", NUMERAL), ("1", "1", NUMERAL),
+                        ("3", "3", NUMERAL), ("24", "24", 5), ("、", ",", SYMBOL), ("。", ".", SYMBOL)],
         _ => vec![],
     }
 }
@@ -259,6 +270,13 @@ impl World {
                 rows.push(numeral_row(w, n_ids, &mut rng, pos));
             }
         }
+        // separators recognised by their NORMALISED form: `、` => `,` and `。` => `.` (rewrite_gen compares normalized_form())
+        if rng.chance(1, 3) {
+            let mut r = numeral_row("、", n_ids, &mut rng, SYMBOL);
+            r.norm = ",".to_string();
+            rows.push(r);
+        }
+        if rng.chance(1, 3) { rows[3].norm = ".".to_string(); }   // the row `。`
         // katakana words of length 1..4 (minLength 0..4 makes the short ones joinable)
         for _ in 0..rng.range(2, 7) {
             let w = rand_word(&mut rng, &KATA[..4], 4);
@@ -281,7 +299,7 @@ impl World {
         }
         for (s, nf, pos) in directed_rows(directed) {
             let mut r = numeral_row(s, n_ids, &mut rng, pos);
-            r.cost = -3000;
+            r.cost = if s.chars().count() > 1 { -9000 } else { -3000 };
             r.norm = nf.to_string();
             rows.retain(|x| x.surface != s);
             rows.push(r);
@@ -337,6 +355,12 @@ impl World {
                           (8, "0x30A2 NOOOVBOW\n"), (10, "0x002E KATAKANA\n")] {
             if rng.chance(1, p) && directed.map_or(true, |d| d < 4) { extra.push_str(line); }
         }
+        // characters of every UTF-8 width in the two classes the plugins look at: 2 bytes (U+0663 ARABIC-INDIC DIGIT THREE,
+        // U+0436 CYRILLIC ZHE) and 4 bytes (U+10107 AEGEAN NUMBER ONE, U+1B000 KATAKANA LETTER ARCHAIC E); the 1- and 3-byte
+        // ones are the ASCII digits and the kana; without the line the character is class DEFAULT (ends a run)
+        for line in ["0x0663 NUMERIC\n", "0x0436 KATAKANA\n", "0x10107 NUMERIC\n", "0x1B000 KATAKANA\n"] {
+            if rng.chance(2, 3) && directed.is_none() { extra.push_str(line); }
+        }
         // a separator that is numeric by class: together with a malformed grouping the restart never ends
         if directed == Some(3) { extra.push_str("0x002C NUMERIC\n"); }
         extra.push_str("KATAKANA 1 1 2\nNUMERIC 1 1 0\nKANJINUMERIC 1 1 0\nHIRAGANA 0 1 2\n");
@@ -363,13 +387,35 @@ impl World {
             oov_plugins.push(r#"{"class":"com.worksap.nlp.sudachi.MeCabOovPlugin"}"#.to_string());
         }
         oov_plugins.push(simple_oov_json(id(&mut rng) as i64, id(&mut rng) as i64, 3000 + rng.below(6000) as i64));
-        Ok(World { wd, system, input_plugins, oov_plugins, rows, chardef_extra: extra })
+        let mut users: Vec<Vec<u8>> = vec![];
+        let mut user_words: Vec<String> = vec![];
+        let n_users = if directed.is_some() { 0 } else { *rng.pick(&[0usize, 0, 1, 1, 2]) };
+        if n_users > 0 {
+            let cfg0 = config_json(&wd, &input_plugins, &oov_plugins, &[], &[]);
+            let sysdic = load(&cfg0, system.clone(), vec![])?;
+            for u in 0..n_users {
+                let ws: &[&str] = if u == 0 { &["カ", "イカ", "ウカ", "99", "ァ"] } else { &["ウ", "カア", "アカ", "55", "イ"] };
+                let mut urows = vec![];
+                for w in ws {
+                    if rng.chance(1, 4) { continue; }
+                    let digit = w.chars().all(|c| c.is_ascii_digit());
+                    let p = if digit { NUMERAL } else { *rng.pick(&[NOUN, NOUN, 5]) };
+                    let mut r = numeral_row(w, n_ids, &mut rng, p);
+                    r.cost = -1500 - rng.below(2500) as i32;
+                    if !digit { user_words.push(w.to_string()); }
+                    urows.push(r);
+                }
+                if urows.is_empty() { urows.push(numeral_row("カ", n_ids, &mut rng, NOUN)); user_words.push("カ".to_string()); }
+                users.push(build_user(&sysdic, csv_of(&urows, &pos).as_bytes())?);
+            }
+        }
+        Ok(World { wd, system, input_plugins, oov_plugins, rows, chardef_extra: extra, users, user_words })
     }
 
     pub fn load(&self, plugins: &[Plug]) -> Result<Arc<JapaneseDictionary>, String> {
         let pr: Vec<String> = plugins.iter().map(|p| p.json()).collect();
         let cfg = config_json(&self.wd, &self.input_plugins, &self.oov_plugins, &pr, &[]);
-        load(&cfg, self.system.clone(), vec![]).map(Arc::new)
+        load(&cfg, self.system.clone(), self.users.clone()).map(Arc::new)
     }
 }
 
@@ -379,7 +425,8 @@ impl World {
 fn gen_arabic(rng: &mut Rng) -> String {
     fn d(rng: &mut Rng, lo: usize, hi: usize) -> String {
         let n = rng.range(lo, hi);
-        (0..n).map(|_| *rng.pick(&['0', '1', '2', '3', '5', '7', '9'])).collect()
+        // now and then a 2-byte (U+0663) or a 4-byte (U+10107) character that char.def may class NUMERIC (the parser rejects it)
+        (0..n).map(|_| if rng.chance(1, 14) { *rng.pick(&['\u{0663}', '\u{10107}']) } else { *rng.pick(&['0', '1', '2', '3', '5', '7', '9']) }).collect()
     }
     match rng.below(14) {
         0 => d(rng, 1, 4),
@@ -421,7 +468,9 @@ fn gen_kata(rng: &mut Rng, words: &[String]) -> String {
             _ => format!("カ{}", a),
         };
     }
-    match rng.below(5) {
+    match rng.below(6) {
+        // a 2-byte (U+0436) or 4-byte (U+1B000) character that char.def may class KATAKANA inside a katakana run
+        5 => format!("{}{}{}", rand_word(rng, &KATA[..3], 2), rng.pick(&['\u{0436}', '\u{1B000}']), if rng.chance(1, 2) { rand_word(rng, &KATA[..3], 2) } else { String::new() }),
         0 => rng.pick(KATA).to_string(),
         1 => rand_word(rng, KATA, 5),
         2 => format!("ァ{}", rand_word(rng, KATA, 3)),
@@ -469,8 +518,9 @@ pub fn gen_text_c(rng: &mut Rng, words: &[String], compounds: &[String]) -> Stri
 }
 
 fn gen_stack(rng: &mut Rng) -> Vec<Plug> {
-    let num = |rng: &mut Rng| Plug::Numeric { normalize: rng.chance(1, 2) };
-    let kat = |rng: &mut Rng| Plug::Katakana { min_length: rng.below(5), pos: *rng.pick(&[NOUN, NOUN, 5, SYMBOL]) };
+    let num = |rng: &mut Rng| { let normalize = rng.chance(1, 2); Plug::Numeric { normalize, implicit: normalize && rng.chance(1, 3) } };
+    // minLength: 0..4 mostly; now and then beyond every word (5, 8, 30) and huge (every dictionary word is "shorter")
+    let kat = |rng: &mut Rng| Plug::Katakana { min_length: if rng.chance(1, 10) { *rng.pick(&[5usize, 8, 30, 1_000_000, usize::MAX >> 1]) } else { rng.below(5) }, pos: *rng.pick(&[NOUN, NOUN, 5, SYMBOL]) };
     match rng.below(12) {
         // the same plugin twice with the same settings: running a plugin on its own output changes nothing
         10 => { let p = num(rng); vec![p.clone(), p] }
@@ -485,10 +535,10 @@ fn gen_stack(rng: &mut Rng) -> Vec<Plug> {
 
 /// directed cases: (directed world, stack, text)
 fn directed(idx: usize) -> Option<(Option<usize>, Vec<Plug>, &'static str)> {
-    let n1 = || vec![Plug::Numeric { normalize: true }];
-    let n0 = || vec![Plug::Numeric { normalize: false }];
+    let n1 = || vec![Plug::Numeric { normalize: true, implicit: false }];
+    let n0 = || vec![Plug::Numeric { normalize: false, implicit: false }];
     let k = |m| vec![Plug::Katakana { min_length: m, pos: NOUN }];
-    let both = |m| vec![Plug::Numeric { normalize: true }, Plug::Katakana { min_length: m, pos: NOUN }];
+    let both = |m| vec![Plug::Numeric { normalize: true, implicit: false }, Plug::Katakana { min_length: m, pos: NOUN }];
     Some(match idx {
         0 => (Some(0), n1(), "あ7あ"),
         1 => (Some(1), n1(), "7"),
@@ -509,15 +559,28 @@ fn directed(idx: usize) -> Option<(Option<usize>, Vec<Plug>, &'static str)> {
         16 => (None, n1(), "1,000アイ"),
         // F3: the numeral joiner is not idempotent - the first run gives up on `1,234,` when the `.` is rejected with a
         // COMMA error and restarts without separators; the second run meets `5.5` as one non-numeric token and joins `1,234`
-        17 => (Some(4), vec![Plug::Numeric { normalize: true }, Plug::Numeric { normalize: true }], "1,234,5.5"),
-        18 => (Some(4), vec![Plug::Numeric { normalize: false }, Plug::Numeric { normalize: false }], "1,234,5.5あ"),
+        17 => (Some(4), vec![Plug::Numeric { normalize: true, implicit: false }, Plug::Numeric { normalize: true, implicit: false }], "1,234,5.5"),
+        18 => (Some(4), vec![Plug::Numeric { normalize: false, implicit: false }, Plug::Numeric { normalize: false, implicit: false }], "1,234,5.5あ"),
         19 => (None, vec![Plug::Katakana { min_length: 2, pos: NOUN }, Plug::Katakana { min_length: 2, pos: NOUN }], "ーアイウカ1ァア"),
         // both orders of the two plugins on the same text
-        20 => (None, vec![Plug::Katakana { min_length: 1, pos: NOUN }, Plug::Numeric { normalize: true }], "1,000,アイウ1.5."),
+        20 => (None, vec![Plug::Katakana { min_length: 1, pos: NOUN }, Plug::Numeric { normalize: true, implicit: false }], "1,000,アイウ1.5."),
+        // the gate of JoinNumericPlugin::concat (seeded change C14c): a run whose HEAD is an all-digit word with another part of
+        // speech (`24` proper noun) followed by numerals is left alone; the same digits headed by a numeral are joined;
+        // enableNormalize left out of the settings (default true)
+        21 => (Some(5), vec![Plug::Numeric { normalize: true, implicit: true }], "247"),
+        22 => (Some(5), n0(), "7247あ24"),
+        23 => (Some(5), vec![Plug::Numeric { normalize: false, implicit: false }, Plug::Katakana { min_length: 0, pos: NOUN }], "アイ2470"),
+        // separators recognised by their NORMALISED form (`、` => `,`, `。` => `.`), not by their surface
+        24 => (Some(5), n1(), "1、000。5"),
+        // observation (no clause violated): after a CLOSED gate rewrite_gen still sets `i = begin_idx + 1`: the node after the
+        // head is skipped and the rest of the run is scanned again as a run of its own - `24|7|5|3|あ` becomes `24|7|53|あ`,
+        // while the same digits at the end of the text (tail case, no re-scan) stay `24|7|5|3`
+        25 => (Some(5), n0(), "24753あ"),
+        26 => (Some(5), n0(), "24753"),
         _ => return None,
     })
 }
-const N_DIRECTED: usize = 21;
+const N_DIRECTED: usize = 27;
 /// the first directed cases do not terminate on the unchanged tree: they are run last so that the
 /// stuck worker threads do not compete with the rest of the run
 const N_HANG: usize = 4;
@@ -546,6 +609,32 @@ fn is_candidate(n: &NodeObs, cat: &[u32]) -> bool {
     s == "," || s == "." || (n.b..n.e.min(cat.len())).any(|i| cat[i] & (NUMERIC | KANJINUMERIC) != 0)
 }
 
+/// Input distribution of the numeral joiner's gate (`JoinNumericPlugin::concat` tests the part of speech of the FIRST node
+/// of a run; `concat_nodes` copies the part of speech of that node): for every maximal run of candidate nodes of the
+/// un-rewritten path with at least two nodes, what heads it and whether a numeral follows a head that is none
+/// (the condition of seeded change C14c).
+fn gate_stats(base: &Obs, num_pos: u16) -> Vec<String> {
+    let mut out = vec![];
+    let n = &base.nodes;
+    let mut i = 0;
+    while i < n.len() {
+        if !is_candidate(&n[i], &base.cat) { i += 1; continue; }
+        let mut j = i;
+        while j < n.len() && is_candidate(&n[j], &base.cat) { j += 1; }
+        if j - i >= 2 {
+            let sep = |k: usize| { let s = n[k].norm_form(); s == "," || s == "." };
+            let later = n[i + 1..j].iter().any(|p| p.pos == num_pos);
+            out.push(format!("numeral-run:head-{}{}", if sep(i) { "separator" } else if n[i].pos == num_pos { "numeral" } else if n[i].wid >> 28 == 15 { "oov-other-pos" } else { "word-other-pos" },
+                if n[i].pos == num_pos { "" } else if later { ":numeral-follows" } else { ":no-numeral" }));
+            if n[i..j].iter().any(|p| p.surface != p.norm_form() && (p.norm_form() == "," || p.norm_form() == ".")) { out.push("numeral-run:separator-by-normalised-form".into()); }
+        } else {
+            out.push(format!("numeral-run:single-{}", if n[i].pos == num_pos { "numeral" } else { "other" }));
+        }
+        i = j;
+    }
+    out
+}
+
 fn parser_queries(paths: &[&Vec<NodeObs>], cat: &[u32]) -> BTreeSet<String> {
     let mut qs = BTreeSet::new();
     for p in paths {
@@ -564,7 +653,8 @@ fn parser_queries(paths: &[&Vec<NodeObs>], cat: &[u32]) -> BTreeSet<String> {
 
 fn plug_wire(p: &Plug, pos_ids: &[u16]) -> String {
     match p {
-        Plug::Numeric { normalize } => format!("N:{}:{}", *normalize as u8, pos_ids[NUMERAL]),
+        // enableNormalize left out of the settings: the field is EMPTY on the wire and the model applies the default of `set_up`
+        Plug::Numeric { normalize, implicit } => if *implicit && *normalize { format!("N::{}", pos_ids[NUMERAL]) } else { format!("N:{}:{}", *normalize as u8, pos_ids[NUMERAL]) },
         Plug::Katakana { min_length, pos } => format!("K:{}:{}", min_length, pos_ids[*pos]),
     }
 }
@@ -595,7 +685,7 @@ fn oracle(base: &Obs, with: &Obs, stack: &[Plug], pos_ids: &[u16], stats: &mut V
     }
     let num_pos = pos_ids[NUMERAL];
     let has_numeric = stack.iter().any(|p| matches!(p, Plug::Numeric { .. }));
-    let has_norm = stack.iter().any(|p| matches!(p, Plug::Numeric { normalize: true }));
+    let has_norm = stack.iter().any(|p| matches!(p, Plug::Numeric { normalize: true, .. }));
     let kat_pos: Vec<u16> = stack.iter().filter_map(|p| if let Plug::Katakana { pos, .. } = p { Some(pos_ids[*pos]) } else { None }).collect();
     let mut j = 0usize; // index into the un-rewritten path
     for (k, m) in n1.iter().enumerate() {
@@ -613,6 +703,18 @@ fn oracle(base: &Obs, with: &Obs, stack: &[Plug], pos_ids: &[u16], stats: &mut V
         let tm = &t1[k];
         if l > j {
             stats.push(format!("merge:{}", (l - j + 1).min(6)));
+            if mode_c {
+                // UTF-8 widths of the characters under the merged token, and which plugin made it / which dictionary id it got
+                let mut ws: Vec<usize> = tm.surface.chars().map(|c| c.len_utf8()).collect();
+                ws.sort(); ws.dedup();
+                stats.push(format!("merged-token-char-widths:{}", join(ws.iter(), "+")));
+                if m.wid == WID_INVALID { stats.push("merged-by:numeral-joiner".into()); }
+                else {
+                    stats.push(format!("merged-by:katakana-joiner:dic{}{}", m.wid >> 28, if m.wid >> 28 == 15 { "(oov)" } else { "" }));
+                    let dics: BTreeSet<u32> = n0[j..=l].iter().map(|p| p.wid >> 28).collect();
+                    stats.push(format!("katakana-block-dictionaries:{}", join(dics.iter(), "+")));
+                }
+            }
             // clause 2: range = union of the merged ranges (original-text offsets as reported)
             if (tm.begin, tm.begin_c) != (blk[0].begin, blk[0].begin_c) || (tm.end, tm.end_c) != (blk[blk.len() - 1].end, blk[blk.len() - 1].end_c) {
                 return Some(("c14:merged-range".into(), format!("merged token {} reports {}..{}, parts span {}..{}", k, tm.begin, tm.end, blk[0].begin, blk[blk.len() - 1].end)));
@@ -724,11 +826,22 @@ un-rewritten path; distinct by payload".into();
         let text = match dtext {
             Some(t) => t,
             None => {
-                let words: Vec<String> = world.rows.iter().filter(|r| r.left >= 0 && r.surface.chars().all(|c| KATA.contains(&c))).map(|r| r.surface.clone()).collect();
+                let mut words: Vec<String> = world.rows.iter().filter(|r| r.left >= 0 && r.surface.chars().all(|c| KATA.contains(&c))).map(|r| r.surface.clone()).collect();
+                words.extend(world.user_words.iter().cloned());
                 let compounds: Vec<String> = world.rows.iter().filter(|r| r.split_a.contains('/') && r.surface.chars().all(|c| !KATA.contains(&c))).map(|r| r.surface.clone()).collect();
-                gen_text_c(&mut rng, &words, &compounds)
+                let t = gen_text_c(&mut rng, &words, &compounds);
+                // separators that are separators only by their NORMALISED form (lexicon rows `、` => `,`, `。` => `.`)
+                if rng.chance(1, 8) && (t.contains(',') || t.contains('.')) {
+                    run.bump("text:separators-by-normalised-form");
+                    t.replace(',', "、").replace('.', "。")
+                } else { t }
             }
         };
+        run.bump(&format!("user-dictionaries:{}", world.users.len()));
+        for (c, k) in [('\u{0663}', "text:2-byte-numeric-candidate"), ('\u{10107}', "text:4-byte-numeric-candidate"), ('\u{0436}', "text:2-byte-katakana-candidate"), ('\u{1B000}', "text:4-byte-katakana-candidate")] {
+            if text.contains(c) { run.bump(k); }
+        }
+        if stack.iter().any(|p| matches!(p, Plug::Numeric { implicit: true, .. })) { run.bump("numeric-settings:enableNormalize-omitted"); }
         // stack prefixes 0..=n
         let mut dics = vec![];
         let mut bad = None;
@@ -785,8 +898,11 @@ un-rewritten path; distinct by payload".into();
         }
         let mut payload = format!("nv={} cat={} plugins={} path={} pq={}", numeric_variant(), join(base.cat.iter(), ","),
             join(stack.iter().map(|p| plug_wire(p, &pos_ids)), ";"), wire_path(&base.nodes), pq.join(";"));
-        run.bump(&format!("stack:{}", join(stack.iter().map(|p| match p { Plug::Numeric { normalize } => format!("N{}", *normalize as u8), Plug::Katakana { min_length, .. } => format!("K{}", min_length) }), "")));
+        run.bump(&format!("stack:{}", join(stack.iter().map(|p| match p { Plug::Numeric { normalize, implicit } => format!("N{}", if *implicit { "d".to_string() } else { (*normalize as u8).to_string() }), Plug::Katakana { min_length, .. } => format!("K{}", if *min_length > 4 { "big".to_string() } else { min_length.to_string() }) }), "")));
         run.bump(&format!("path-len:{}", (base.nodes.len() / 4) * 4));
+        if stack.iter().any(|p| matches!(p, Plug::Numeric { .. })) {
+            for k in gate_stats(&base, pos_ids[NUMERAL]) { run.bump(&k); }
+        }
         run.bump_by("parser-queries", pq.len() as u64);
         let textkey: String = text.chars().map(|c| format!("{:x}", c as u32)).collect::<Vec<_>>().join(".");
         let hist = if warm.is_empty() { String::new() } else { format!(" after earlier texts {} on the same tokenizer and result list", warm_desc(&warm)) };
@@ -794,6 +910,9 @@ un-rewritten path; distinct by payload".into();
             Ana::Ok(with) => {
                 let changed = with.nodes != base.nodes;
                 run.bump(if changed { "outcome:rewritten" } else { "outcome:unchanged" });
+                if idx == 25 || idx == 26 {
+                    run.bump(&format!("observation:closed-gate-rescan:{}:{}", if idx == 25 { "24|7|5|3|あ" } else { "24|7|5|3" }, join(with.toks.iter().map(|t| t.surface.clone()), "|")));
+                }
                 // A/B modes: the plugins run before the split; the split stage is part of the model (unit tables of the
                 // un-rewritten words are shipped, the model must reproduce the split path of the full stack)
                 let mut answer = format!("ok {}", wire_path(&with.nodes));
